@@ -41,7 +41,7 @@ func vfC14Kinds() []vfC14Kind {
 	tok := func(name string, reject map[string]bool, f func(m *vfMintCtx)) {
 		ks = append(ks, vfC14Kind{Name: name, On: "token", Reject: reject, Mint: f})
 	}
-	loginOnly := map[string]bool{"login": true, "login-profile": true}
+	loginOnly := map[string]bool{"login": true, "login-profile": true, "google-login": true}
 	tok("no-id-token", loginOnly, func(m *vfMintCtx) { m.OmitID = true })
 	tok("no-access-token", nil, func(m *vfMintCtx) { m.After = func(r map[string]interface{}) { delete(r, "access_token") } })
 	tok("expires-in-garbage", nil, func(m *vfMintCtx) { m.After = func(r map[string]interface{}) { r["expires_in"] = "soon" } })
@@ -77,6 +77,9 @@ func vfC14Kinds() []vfC14Kind {
 	tok("refresh-token-object", nil, func(m *vfMintCtx) { m.After = func(r map[string]interface{}) { r["refresh_token"] = map[string]interface{}{"a": 1} } })
 	tok("id-token-number", loginOnly, func(m *vfMintCtx) { m.Resp["id_token"] = 12345 })
 	tok("id-token-garbage", all, func(m *vfMintCtx) { m.Resp["id_token"] = "abc.def.ghi" })
+	tok("id-token-no-dots", all, func(m *vfMintCtx) { m.Resp["id_token"] = "not-a-compact-jws" })
+	tok("id-token-empty", loginOnly, func(m *vfMintCtx) { m.Resp["id_token"] = "" })
+	tok("id-token-two-parts", all, func(m *vfMintCtx) { m.Resp["id_token"] = "eyJhbGciOiJub25lIn0." })
 	tok("wrong-key", all, func(m *vfMintCtx) { m.Sign.Key = 3 })
 	tok("alg-none", all, func(m *vfMintCtx) { m.Sign.Alg = "none" })
 	tok("hs256-with-public-key", all, func(m *vfMintCtx) { m.Sign.Alg = "HS256-pub" })
@@ -157,10 +160,14 @@ func vfC14(w *vfWorld) {
 	cfg.Store = vfPick(t, "c14.store", []string{"cookie", "redis"})
 	cfg.CookieRefresh, cfg.CookieExpire = 10*time.Minute, 6*time.Hour
 	cfg.Extra = append(cfg.Extra, "--pass-access-token=true", "--set-xauthrequest=true", "--skip-jwt-bearer-tokens=true")
-	flows := []string{"login", "login-profile", "bearer", "refresh", "plain-login", "plain-stale", "refresh-profile"}
+	flows := []string{"login", "login-profile", "bearer", "refresh", "plain-login", "plain-stale", "refresh-profile", "google-login"}
 	flow := flows[t.Choice("c14.flow", len(flows))]
 	if strings.HasPrefix(flow, "plain") {
 		cfg.Provider = "plain"
+		cfg.Extra = []string{"--pass-access-token=true", "--set-xauthrequest=true"}
+	}
+	if flow == "google-login" {
+		cfg.Provider = "google"
 		cfg.Extra = []string{"--pass-access-token=true", "--set-xauthrequest=true"}
 	}
 	// a fifth of the OIDC worlds run the Keycloak flavour of the provider: JWT access tokens carry the roles
@@ -269,7 +276,7 @@ func vfC14(w *vfWorld) {
 			idp.RotateKey()
 		}
 		switch flow {
-		case "login", "login-profile", "plain-login":
+		case "login", "login-profile", "plain-login", "google-login":
 			lg, _ := b.StartLogin(rep, pp+"/start?rd=%2Fapp", user)
 			pending = lg
 			return lg != nil
@@ -292,7 +299,7 @@ func vfC14(w *vfWorld) {
 	}
 	act := func(b *vfBrowser) *vfResp {
 		switch flow {
-		case "login", "login-profile", "plain-login":
+		case "login", "login-profile", "plain-login", "google-login":
 			return b.GET(rep, pending.CallbackTarget(pp))
 		case "bearer":
 			return b.Do(rep, &vfReq{Method: "GET", Target: "/api/x", NoJar: true, Headers: [][2]string{{"Authorization", "Bearer " + bearer}}})
@@ -326,7 +333,7 @@ func vfC14(w *vfWorld) {
 	}
 	okFree := false
 	switch flow {
-	case "login", "login-profile", "plain-login":
+	case "login", "login-profile", "plain-login", "google-login":
 		okFree = r0.Status == 302 && vfSessionCookieSet(r0, cfg.CookieName)
 	default:
 		okFree = served(r0)
@@ -435,6 +442,14 @@ func vfC14(w *vfWorld) {
 				if kd.Need != "" && !lacks[kd.Need] {
 					mustReject = false
 				}
+				if flow == "google-login" && kd.Mint != nil {
+					// this provider takes the ID token from its token endpoint without verifying signature, issuer, audience,
+					// expiry or nonce (by design: it trusts the back channel). What it does promise: a payload it can decode,
+					// with an e-mail address that is not marked unverified
+					n := kd0.Name
+					mustReject = mustReject && (strings.HasPrefix(n, "id-token-") || n == "no-id-token" || n == "payload-not-json" || n == "email-unverified" ||
+						(strings.HasPrefix(n, "omit:") && strings.Contains(n, "id_token")))
+				}
 				if calls[k].Endpoint == "plain:validate" {
 					// the validate URL is judged by its status line only: any 200 means "token valid"
 					switch kd0.Fault.Kind {
@@ -446,7 +461,7 @@ func vfC14(w *vfWorld) {
 				if mustReject {
 					cs.MustReject++
 					switch flow {
-					case "login", "login-profile", "plain-login":
+					case "login", "login-profile", "plain-login", "google-login":
 						if vfSessionCookieSet(r, cfg.CookieName) || r.Status == 302 && r.Location() == "/app" {
 							w.violate("C14", "session-from-bad-response", flow+"/"+kd.Name, "%s: the callback established a session (status %d) from a failed / malformed provider response", label, r.Status)
 						}
@@ -508,7 +523,7 @@ func vfC14(w *vfWorld) {
 	flowSaved := flow
 	if prep(bh) {
 		switch flowSaved {
-		case "login", "login-profile", "plain-login":
+		case "login", "login-profile", "plain-login", "google-login":
 			r := act(bh)
 			if !(r.Status == 302 && vfSessionCookieSet(r, cfg.CookieName)) {
 				w.violate("C14", "not-recovered", flow, "after the fault sweep an honest login fails: status %d", r.Status)
